@@ -128,25 +128,51 @@ pub fn core_reads(g: &G, ng: &NormGraph, out: &mut Outcome) {
             Err(e) => out.fail("get_neighbor_nodes/error/huge_graph", format!("position {}: {}", i, kind_of(&e))),
         }
         // pair lookups: every stored out-neighbour (up to 40), one absent pair, the absent name
-        for (j, w) in adj.out[i].iter().take(40) {
-            out.api_calls += 1;
-            match g.get_edge(x.clone(), ng.names[*j].clone()) {
-                Ok(e) => {
-                    out.check(same_bits(e.weight, *w) || (e.weight.is_nan() && w.is_nan()), "get_edge/eq_model/huge_graph", || format!("({}, {}): weight {} want {}", i, j, e.weight, w));
-                }
-                Err(e) => out.fail("get_edge/present_edge/huge_graph", format!("({}, {}): {}", i, j, kind_of(&e))),
-            }
-        }
         let far = (i + n / 2 + 7) % n;
-        if !succ.contains(&far) && !(!ng.directed && pred.contains(&far)) && far != i {
-            out.api_calls += 1;
-            let r = g.get_edge(x.clone(), ng.names[far].clone());
-            out.check(matches!(&r, Err(e) if kind_of(e) == "EdgeNotFound"), "get_edge/absent_edge/huge_graph", || format!("({}, {}): {}", i, far, res_kind(&r)));
+        let far_absent = !succ.contains(&far) && !(!ng.directed && pred.contains(&far)) && far != i;
+        if ng.multi {
+            let nbrs: BTreeSet<usize> = adj.out[i].iter().map(|x| x.0).take(40).collect();
+            for j in nbrs {
+                out.api_calls += 1;
+                let mut want: Vec<u64> = adj.out[i].iter().filter(|x| x.0 == j).map(|x| wbits(x.1)).collect();
+                if !ng.directed && i == j {
+                    // (an undirected self-loop is listed once in the adjacency oracle)
+                }
+                want.sort();
+                match g.get_edges(x.clone(), ng.names[j].clone()) {
+                    Ok(l) => {
+                        let mut got: Vec<u64> = l.iter().map(|e| wbits(e.weight)).collect();
+                        got.sort();
+                        out.check(got == want, "get_edges/eq_model/huge_graph", || format!("({}, {}): {} parallel edges, want {}", i, j, got.len(), want.len()));
+                    }
+                    Err(e) => out.fail("get_edges/present_edge/huge_graph", format!("({}, {}): {}", i, j, kind_of(&e))),
+                }
+            }
+            if far_absent {
+                out.api_calls += 1;
+                let r = g.get_edges(x.clone(), ng.names[far].clone());
+                out.check(matches!(&r, Err(e) if kind_of(e) == "EdgeNotFound") || matches!(&r, Ok(l) if l.is_empty()), "get_edges/absent_edge/huge_graph", || format!("({}, {}): {}", i, far, res_kind(&r)));
+            }
+        } else {
+            for (j, w) in adj.out[i].iter().take(40) {
+                out.api_calls += 1;
+                match g.get_edge(x.clone(), ng.names[*j].clone()) {
+                    Ok(e) => {
+                        out.check(same_bits(e.weight, *w) || (e.weight.is_nan() && w.is_nan()), "get_edge/eq_model/huge_graph", || format!("({}, {}): weight {} want {}", i, j, e.weight, w));
+                    }
+                    Err(e) => out.fail("get_edge/present_edge/huge_graph", format!("({}, {}): {}", i, j, kind_of(&e))),
+                }
+            }
+            if far_absent {
+                out.api_calls += 1;
+                let r = g.get_edge(x.clone(), ng.names[far].clone());
+                out.check(matches!(&r, Err(e) if kind_of(e) == "EdgeNotFound"), "get_edge/absent_edge/huge_graph", || format!("({}, {}): {}", i, far, res_kind(&r)));
+            }
         }
     }
     out.api_calls += 2;
     let r = g.get_edge(ng.names[0].clone(), ABSENT.to_string());
-    out.check(matches!(&r, Err(e) if kind_of(e) == "NodeNotFound"), "get_edge/absent_node/huge_graph", || res_kind(&r));
+    out.check(matches!(&r, Err(e) if kind_of(e) == "NodeNotFound" || (ng.multi && kind_of(e) == "WrongMethod")), "get_edge/absent_node/huge_graph", || res_kind(&r));
     // (breadth_first_search is not called here: the library rebuilds the frontier set once per
     // visited node, which takes minutes on levels of tens of thousands of nodes; C10 covers it)
 }
@@ -548,4 +574,147 @@ pub fn derived(g: &G, ng: &NormGraph, out: &mut Outcome) {
         }
     }
     out.check(canon(g, false) == all && g.number_of_nodes() == n, "source/unchanged/huge_graph", || "the source graph changed".to_string());
+}
+
+// ------------------------------------------------------------------------------------------------
+// histories on the huge graph
+
+/// A deterministic script of 14 operations over an 8-name universe (see `history`), biased towards
+/// the first hub: the same pair is hit repeatedly in both orientations with lighter and heavier
+/// weights, nodes are re-added, batches fail half-way.
+pub fn huge_ops(seed: u64) -> Vec<crate::model::Op> {
+    use crate::model::{Op, W};
+    let mut s = seed | 1;
+    let mut next = |m: u64| -> u64 {
+        s = mix(s, 0xabcd);
+        s % m
+    };
+    let mut ops = vec![];
+    for _ in 0..14 {
+        let mut pick = |next: &mut dyn FnMut(u64) -> u64| -> u8 { if next(2) == 0 { 0 } else { next(8) as u8 } };
+        let (u, v) = (pick(&mut next), next(8) as u8);
+        let (u, v) = if next(3) == 0 { (v, u) } else { (u, v) };
+        let w = W(next(32) as u8);
+        ops.push(match next(10) {
+            0 => Op::AddNode(u, Some(next(100) as i32 - 50)),
+            1 => Op::AddEdgeTuple(u, v),
+            2 => Op::AddEdges(vec![(u, v, w), (v, next(8) as u8, W(next(32) as u8)), (next(8) as u8, next(8) as u8, W(3))]),
+            3 => Op::AddEdgeTuples(vec![(u, v), (next(8) as u8, next(8) as u8)]),
+            _ => Op::AddEdge(u, v, w),
+        });
+    }
+    ops
+}
+
+#[derive(Clone, Copy, PartialEq, Eq, Debug)]
+pub enum Aspect {
+    Mutations,
+    Reads,
+    Traversal,
+}
+
+/// A history on the huge graph: the procedural graph is loaded under the case's GraphSpecs, then
+/// the case's operations run over the universe [hub 0, hub 1, the neighbour attached to hub 0
+/// last, the one attached first, one from the middle of its list, the last node, position 2^16, a
+/// new name]. The reference model is the ordinary one; the final state is compared by linear-time
+/// procedures according to `aspect`.
+pub fn history(case: &crate::model::HistCase, aspect: Aspect, out: &mut Outcome) {
+    use crate::model::*;
+    let spec = SpecBits::from_index(case.spec);
+    let ng = crate::oracle::procedural_graph(HUGE_N as usize, 0x5eed + spec.directed as u64, spec.directed, true);
+    let n = ng.n;
+    reset_edge_pool();
+    let mut g = G::new(spec.to_specs());
+    let mut m = Model::new(spec);
+    g.add_nodes((0..n).map(|i| mk_node(&ng.names[i], Some(i as i32))).collect());
+    m.nodes = (0..n).map(|i| (ng.names[i].clone(), Some(i as i32))).collect();
+    for (i, j, w) in &ng.edges {
+        let e = mk_edge(&ng.names[*i], &ng.names[*j], *w);
+        m.edges.push(MEdge { u: ng.names[*i].clone(), v: ng.names[*j].clone(), w: *w, a: e.attributes });
+        if let Err(e) = g.add_edge(e) {
+            out.fail(format!("add_edge/outcome/huge_graph_prelude_{}", kind_of(&e)), format!("edge ({}, {}) of the prelude rejected", i, j));
+            return;
+        }
+    }
+    // hub 0's neighbours in the order in which they were attached
+    let nb0: Vec<usize> = ng.edges.iter().filter(|(i, j, _)| *i == 0 || *j == 0).map(|(i, j, _)| if *i == 0 { *j } else { *i }).collect();
+    let universe = vec![
+        ng.names[0].clone(),
+        ng.names[1].clone(),
+        ng.names[*nb0.last().unwrap()].clone(),
+        ng.names[nb0[0]].clone(),
+        ng.names[nb0[nb0.len() / 2]].clone(),
+        ng.names[n - 1].clone(),
+        ng.names[65_536].clone(),
+        "zz-new".to_string(),
+    ];
+    set_universe_names(Some(universe));
+    out.class(format!("huge_history_hub_with_{}_neighbours", if nb0.len() > 1024 { "more_than_1024" } else { "up_to_1024" }));
+    for op in &case.ops {
+        let (mr, gr) = apply(op, 1, &mut m, &mut g);
+        out.api_calls += 1;
+        if mr != gr {
+            if aspect == Aspect::Mutations {
+                out.fail(format!("{}/outcome/huge_graph_model_{}_graph_{}", crate::props::c01::op_name(op), mr, gr), format!("{:?} returned {} but the specs dictate {}", op, gr, mr));
+            } else {
+                out.class("diverged_from_model");
+            }
+            set_universe_names(None);
+            return;
+        }
+    }
+    set_universe_names(None);
+    out.class(format!("huge_history_kind_{}", spec.label()));
+    if m.ev.duplicate > 0 {
+        out.class("huge_history_duplicate_on_hub_pair");
+    }
+    // the final state as a NormGraph (positions from the model)
+    let index: std::collections::HashMap<&str, usize> = m.nodes.iter().enumerate().map(|(i, x)| (x.0.as_str(), i)).collect();
+    let fin = NormGraph {
+        directed: spec.directed,
+        multi: spec.multi,
+        loops: true,
+        n: m.nodes.len(),
+        names: m.names(),
+        order: (0..m.nodes.len()).collect(),
+        edges: m.edges.iter().map(|e| (index[e.u.as_str()], index[e.v.as_str()], e.w)).collect(),
+        weighted: m.edges.iter().all(|e| !e.w.is_nan()),
+    };
+    match aspect {
+        Aspect::Mutations => {
+            out.api_calls += 2;
+            let gn: Vec<&String> = g.get_all_node_names();
+            out.check(gn.len() == fin.n && gn.iter().zip(&fin.names).all(|(a, b)| *a == b), "history/node_list/huge_graph", || format!("{} nodes, model {}", gn.len(), fin.n));
+            let ga: Vec<Option<i32>> = g.get_all_nodes().iter().map(|x| x.attributes).collect();
+            out.check(ga == m.nodes.iter().map(|x| x.1).collect::<Vec<_>>(), "history/node_attributes/huge_graph", || "node attributes differ".to_string());
+            let ge = graph_edge_multiset_a(&g);
+            let me = m.edge_multiset_a();
+            if ge != me {
+                let k = ge.iter().zip(&me).position(|(a, b)| a != b).unwrap_or(ge.len().min(me.len()));
+                out.fail("history/edge_multiset/huge_graph", format!("{} edges, model {}; first difference: graph {:?} model {:?}", ge.len(), me.len(), ge.get(k), me.get(k)));
+            }
+        }
+        Aspect::Reads => {
+            let mut o2 = Outcome::new();
+            core_reads(&g, &fin, &mut o2);
+            out.api_calls += o2.api_calls;
+            for f in o2.failures {
+                // (re-added nodes carry new attributes; core_reads expects Some(position))
+                if f.sig.starts_with("get_node/eq_model") {
+                    continue;
+                }
+                out.fail(format!("after_history/{}", f.sig), f.msg);
+            }
+        }
+        Aspect::Traversal => {
+            if fin.weighted {
+                crate::coherent::traversal_check(&g, &m, out);
+                if out.failures.is_empty() {
+                    distances(&g, &fin, "single_source", out);
+                }
+            } else {
+                out.class("mixed_weights_skipped");
+            }
+        }
+    }
 }
